@@ -430,3 +430,81 @@ Proof.
   - now subst.
   - destruct n as [|n]; [discriminate|]. rewrite app_length, shiftRs_length, (IH n); [reflexivity|]. now injection Hn.
 Qed.
+
+(* ------------------------------------------------------------------ confinement of the global-name-set quirk *)
+(* with q_concat_global_names on (name sets from the whole file) the law still holds for every context that assigns
+   no variable anywhere and wraps in no loop: the quirk matters only when the surrounding code assigns variables *)
+Definition is_nil {A} (l : list A) : bool := match l with [] => true | _ :: _ => false end.
+Definition classify_allF (ts : list ast) : list entry := flat_map classify_all ts.
+Fixpoint ctx_assigns_nothing (c : ctx) : bool :=
+  match c with
+  | Hole => true
+  | Wrap i pre post _ _ c' =>
+    negb (String.eqb (cls i) sc_assign_cls || String.eqb (cls i) sc_annassign_cls)
+    && match assoc (cls i) sc_loop_types with Some _ => false | None => true end
+    && is_nil (classify_allF pre) && is_nil (classify_allF post) && ctx_assigns_nothing c'
+  | Seq pre _ c' post => is_nil (classify_allF pre) && is_nil (classify_allF post) && ctx_assigns_nothing c'
+  end.
+
+Lemma is_nil_eq {A} (l : list A) : is_nil l = true -> l = [].
+Proof. destruct l; [reflexivity|discriminate]. Qed.
+
+Lemma classify_all_node i ks : classify_all (Node i ks) = cl_node (Node i ks) ++ flat_map classify_all ks.
+Proof. reflexivity. Qed.
+
+Lemma classify_all_shift dl dc t : classify_all (shift dl dc t) = classify_all t.
+Proof.
+  induction t as [i ks IH] using ast_ind'.
+  rewrite shift_node, classify_all_node. rewrite <- shift_node. rewrite cl_node_shift, classify_all_node. f_equal.
+  rewrite flat_map_map. apply flat_map_ext_F. exact IH.
+Qed.
+
+Lemma classify_allF_shift dl dc ts : classify_allF (shiftF dl dc ts) = classify_allF ts.
+Proof.
+  unfold classify_allF, shiftF. rewrite flat_map_map. apply flat_map_ext. intro k. apply classify_all_shift.
+Qed.
+
+Lemma classify_allF_plug c frag : ctx_assigns_nothing c = true -> classify_allF (plug c frag) = classify_allF frag.
+Proof.
+  induction c as [|i pre post dl dc c' IH|pre dl c' IH post]; cbn [ctx_assigns_nothing plug]; intro H.
+  - reflexivity.
+  - repeat (apply andb_true_iff in H; destruct H as [H ?]).
+    unfold classify_allF at 1. cbn [flat_map]. rewrite app_nil_r, classify_all_node.
+    fold (classify_allF (pre ++ shiftF dl dc (plug c' frag) ++ post)).
+    unfold classify_allF at 1. rewrite !flat_map_app. fold (classify_allF pre) (classify_allF post) (classify_allF (shiftF dl dc (plug c' frag))).
+    match goal with Hp : is_nil (classify_allF pre) = true |- _ => rewrite (is_nil_eq _ Hp) end.
+    match goal with Hp : is_nil (classify_allF post) = true |- _ => rewrite (is_nil_eq _ Hp) end.
+    rewrite app_nil_r, classify_allF_shift. cbn [app].
+    unfold cl_node, is_cls, ncls. cbn [ninfo]. apply negb_true_iff in H. rewrite H. cbn [app]. now apply IH.
+  - repeat (apply andb_true_iff in H; destruct H as [H ?]).
+    unfold classify_allF at 1. rewrite !flat_map_app. fold (classify_allF pre) (classify_allF post) (classify_allF (shiftF dl 0 (plug c' frag))).
+    rewrite (is_nil_eq _ H).
+    match goal with Hp : is_nil (classify_allF post) = true |- _ => rewrite (is_nil_eq _ Hp) end.
+    rewrite app_nil_r, classify_allF_shift. cbn [app]. now apply IH.
+Qed.
+
+Lemma global_ctx_inert q c :
+  q_concat_global_names q = true -> ctx_assigns_nothing c = true -> inert (cl_step q) (cl_emit q) c.
+Proof.
+  intro Hg. induction c as [|i pre post dl dc c' IH|pre dl c' IH post]; cbn [ctx_assigns_nothing inert]; intro H.
+  - exact I.
+  - repeat (apply andb_true_iff in H; destruct H as [H ?]). split; [|now apply IH].
+    intros s mid. split.
+    + unfold cl_emit, loop_type, ncls. cbn [ninfo].
+      match goal with Hl : match assoc (cls i) sc_loop_types with _ => _ end = true |- _ =>
+        destruct (assoc (cls i) sc_loop_types); [discriminate|reflexivity] end.
+    + unfold cl_step, enter. now rewrite Hg.
+  - repeat (apply andb_true_iff in H; destruct H as [H ?]). now apply IH.
+Qed.
+
+Theorem concat_global_names_partial q c frag :
+  q_concat_global_names q = true -> q_concat_dedup_by_name q = false -> ctx_assigns_nothing c = true ->
+  concat_reports q (plug c frag) =
+  ctx_pre (cl_step q) (cl_emit q) c (classify_allF frag)
+  ++ shiftRs (off_l c) (off_c c) (concat_reports q frag)
+  ++ ctx_post (cl_step q) (cl_emit q) c (classify_allF frag).
+Proof.
+  intros Hg Hd Hc. unfold concat_reports, sets0. rewrite Hg, Hd.
+  fold (classify_allF (plug c frag)) (classify_allF frag). rewrite (classify_allF_plug c frag Hc).
+  apply (plug_local (cl_step q) (cl_emit q) (cl_step_shift q) (cl_emit_shift q)). now apply global_ctx_inert.
+Qed.
